@@ -28,7 +28,7 @@ class Table:
             if a['kind'] != 'Struct':
                 continue
             fields = a['variants'][0]['fields']
-            m = [f for f in fields if ty_head(f[1])[0].endswith('HashMap') and ty_head(f[1])[1][:1] == ['u64']]
+            m = [f for f in fields if ty_head(f[1])[0].endswith('HashMap') and ty_head(f[1])[1][:1] and ty_head(f[1])[1][0] in ('u64', 'u32', 'u16', 'u8', 'usize', 'u128', 'i64', 'i32')]
             d = [f for f in fields if ty_head(f[1])[0].endswith('DelayQueue')]
             if len(m) == 1 and len(d) == 1:
                 data_ty = ty_head(ty_head(m[0][1])[1][1])[0]
@@ -43,6 +43,7 @@ class Table:
         if len(cands) != 1:
             raise CannotDecide('%s in-flight table: %d candidate ADTs' % (side, len(cands)))
         self.path, self.adt, self.map_field, self.timer_field, self.data_path, self.data = cands[0]
+        self.key_ty = [ty_head(f[1])[1][0] for f in self.adt['variants'][0]['fields'] if f[0] == self.map_field][0]
         self.methods = [f for f in F.fns.values() if f.kind == 'AssocFn' and f.impl_of and f.impl_of.get('self_head') == self.path
                         and not F.is_derived(f)]
         if not self.methods:
